@@ -17,6 +17,7 @@ property's invariant written independently of utype.
 from __future__ import annotations
 
 import ast
+import hashlib
 import itertools
 import json
 import re
@@ -515,8 +516,10 @@ def violations(case, io):
         for i, sn in enumerate(heap):
             if i < len(prev) and sn == prev[i] and not any(v[1] == i for v in out):
                 continue   # unchanged and clean so far
+            # a fresh copy is compared with the instance it was copied from
+            before = prev[i] if i < len(prev) else (prev[op["i"]] if op["op"] == "copy" and op["i"] < len(prev) else None)
             for tag, msg in check_instance(case, table, sn, roots[i] if i < len(roots) else sn,
-                                           taints[i] if i < len(taints) else set(), prev[i] if i < len(prev) else None):
+                                           taints[i] if i < len(taints) else set(), before):
                 out.append((n, i, tag, msg))
         prev = heap
     return out
@@ -744,8 +747,8 @@ class C07(Check):
             "ignore_required/ignore_delete_nonexistent/addition in {ignore,allow,forbid,int}; Schema 82% / DataClass 18%) "
             "x operation sequences (<=12 quick, <=40 thorough) over setattr/setitem/delattr/delitem/update/pop/popitem/"
             "setdefault/clear/|=/copy on up to 3 live instances, arguments valid/convertible/invalid 50/25/25 for the "
-            "addressed field's type; plus directed copy-then-mutate-both sequences; thorough adds every sequence of length 3 "
-            "over a 20-operation alphabet on a class with one field of every kind.  non-trivial = at least two "
+            "addressed field's type; plus directed copy-then-mutate-both sequences; thorough adds every sequence of length 4 "
+            "over an 18-operation alphabet on a class with one field of every kind.  non-trivial = at least two "
             "state-changing operations and at least one raising or removing operation; distinct by (class, sequence)")
     assumptions = ["the converter of each field type is taken from utype's type-level API (type_transform) and handed to the model as a table: "
                    "C07 is about what the mutators do with it, not about the converters (C01/C02)",
@@ -760,22 +763,59 @@ class C07(Check):
     def cases(self, tier, rng, n):
         out = []
         if tier == "thorough":
-            out += exhaustive_cases(3)
+            out += exhaustive_cases(4)
         maxlen = 40 if tier == "thorough" else 12
         nd = max(50, n // 8)
         out += directed_cases(rng, nd)
         out += [gen_case(rng, maxlen) for _ in range(n - nd)]
         return out
 
+    CHUNK = 4000
+
     def evaluate(self, cases):
-        impl_outs = run_impl(self.impl, cases, self.case_timeout, extra_env=self.impl_env)
-        lines = [self.model_line(c, io) for c, io in zip(cases, impl_outs)]
-        idx = [i for i, l in enumerate(lines) if l is not None]
-        outs = run_driver(self.driver, [lines[i] for i in idx])
-        model_outs = [None] * len(cases)
-        for i, o in zip(idx, outs):
-            model_outs[i] = o
+        """impl and model in chunks; verdicts are computed here and only failing cases (and a few samples)
+        keep their full outputs, so that the exhaustive part fits in memory"""
+        impl_outs, model_outs = [], []
+        for at in range(0, len(cases), self.CHUNK):
+            chunk = cases[at:at + self.CHUNK]
+            ios = run_impl(self.impl, chunk, self.case_timeout, extra_env=self.impl_env)
+            lines = [self.model_line(c, io) for c, io in zip(chunk, ios)]
+            idx = [i for i, l in enumerate(lines) if l is not None]
+            outs = run_driver(self.driver, [lines[i] for i in idx])
+            mos = [None] * len(chunk)
+            for i, o in zip(idx, outs):
+                mos[i] = o
+            for n, (c, io, mo) in enumerate(zip(chunk, ios, mos)):
+                if isinstance(io, dict) and "__worker_exc__" not in io and "hang" not in io and "crash" not in io:
+                    pre = {"cmp": self._compare(c, io, mo), "spec": self._spec(c, io, mo), "key": self._key(c, io),
+                           "dist": self._distribution(c, io)}
+                    if pre["cmp"] or pre["spec"] or at + n < 5:
+                        io = dict(io, _pre=pre)
+                    else:
+                        io, mo = {"_pre": pre, "slim": True}, None
+                impl_outs.append(io)
+                model_outs.append(mo)
         return impl_outs, model_outs
+
+    def compare(self, case, io, mo):
+        if isinstance(io, dict) and "_pre" in io:
+            return io["_pre"]["cmp"]
+        return self._compare(case, io, mo)
+
+    def spec(self, case, io, mo):
+        if isinstance(io, dict) and "_pre" in io:
+            return io["_pre"]["spec"]
+        return self._spec(case, io, mo)
+
+    def key(self, case, io):
+        if isinstance(io, dict) and "_pre" in io:
+            return io["_pre"]["key"]
+        return self._key(case, io)
+
+    def distribution(self, case, io):
+        if isinstance(io, dict) and "_pre" in io:
+            return io["_pre"]["dist"]
+        return self._distribution(case, io)
 
     def model_line(self, case, io=None):
         if not isinstance(io, dict) or "init" not in io:
@@ -818,7 +858,7 @@ class C07(Check):
         return {"data": [[k, j(v)] for k, v in s["data"]], "attrs": sorted([k, j(v)] for k, v in s["attrs"]),
                 "view": [[k, j(v)] for k, v in s["view"]], "has": [list(x) for x in s["has"]]}
 
-    def compare(self, case, io, mo):
+    def _compare(self, case, io, mo):
         if not isinstance(io, dict):
             return f"impl: {io}"
         if "skip" in io:
@@ -852,7 +892,7 @@ class C07(Check):
         return None
 
     # -- oracle ---------------------------------------------------------------------------------
-    def spec(self, case, io, mo):
+    def _spec(self, case, io, mo):
         if not isinstance(io, dict):
             return f"the operation sequence did not complete: {io}"
         if "skip" in io:
@@ -873,7 +913,7 @@ class C07(Check):
         return None
 
     # -- evidence -------------------------------------------------------------------------------
-    def key(self, case, io):
+    def _key(self, case, io):
         if not isinstance(io, dict) or "steps" not in io:
             return None
         prev = io["init"]
@@ -887,10 +927,11 @@ class C07(Check):
                     removed += 1
             prev = st["heap"]
         if changed >= 2 and (raised or removed):
-            return json.dumps([case["base"], case["opts"], case["fields"], case.get("props"), case["init"], case["ops"]], sort_keys=True)
+            return hashlib.sha1(json.dumps([case["base"], case["opts"], case["fields"], case.get("props"), case["init"],
+                                            case["ops"]], sort_keys=True).encode()).hexdigest()
         return None
 
-    def distribution(self, case, io):
+    def _distribution(self, case, io):
         if not isinstance(io, dict):
             return "adapter-failure"
         if "skip" in io:
@@ -919,7 +960,7 @@ class C07(Check):
     def finish_evidence(self, ev, tier):
         ev["coverage"]["exhaustive"] = False
         if tier == "thorough":
-            ev["coverage"]["exhaustive_part"] = "every sequence of exactly 3 operations over a 20-operation alphabet (valid/convertible/invalid arguments) on the class FULL"
+            ev["coverage"]["exhaustive_part"] = "every sequence of exactly 4 operations (104976 sequences, prefixes checked on the way) over an 18-operation alphabet (valid/convertible/invalid arguments) on the class FULL"
 
     # -- T1 table: which dict mutators does Schema define itself? --------------------------------
     def extra_static(self, tier):
